@@ -11,21 +11,24 @@ use vrt::codec::*;
 
 pub fn check_case(c: &Case) -> PResult {
     for pk in ALL_PK {
-        let out = match catch(|| write_items(pk, BKind::BytesMut, &c.items, c.flavor_w)) {
-            Err(p) => return Err(Fail::new(&format!("panic-{:?}", pk), format!("{:?}: size or write panicked: {}", pk, p))),
-            Ok(Err(e)) => return Err(Fail::new(&format!("write-error-{:?}", pk), format!("{:?}: {}", pk, e))),
-            Ok(Ok(o)) => o,
-        };
-        let mut prev = 0;
-        for (i, it) in c.items.iter().enumerate() {
-            let written = out.ends[i] - prev;
-            prev = out.ends[i];
-            ensure!(
-                out.lens[i] == written,
-                &format!("size-differs-{:?}", pk),
-                "{:?}: item {} reported size {} but encoding wrote {} bytes: {:?}",
-                pk, i, out.lens[i], written, it
-            );
+        // every output buffer kind has a writer of its own; the reported size is one number
+        for bk in ALL_BK {
+            let out = match catch(|| write_items(pk, bk, &c.items, c.flavor_w)) {
+                Err(p) => return Err(Fail::new(&format!("panic-{:?}", pk), format!("{:?}/{:?}: size or write panicked: {}", pk, bk, p))),
+                Ok(Err(e)) => return Err(Fail::new(&format!("write-error-{:?}", pk), format!("{:?}/{:?}: {}", pk, bk, e))),
+                Ok(Ok(o)) => o,
+            };
+            let mut prev = 0;
+            for (i, it) in c.items.iter().enumerate() {
+                let written = out.ends[i] - prev;
+                prev = out.ends[i];
+                ensure!(
+                    out.lens[i] == written,
+                    &format!("size-differs-{:?}", pk),
+                    "{:?}/{:?}: item {} reported size {} but encoding wrote {} bytes: {:?}",
+                    pk, bk, i, out.lens[i], written, it
+                );
+            }
         }
         if pk == PKind::Unsafe {
             continue;
